@@ -494,6 +494,11 @@ def main(prop, tier, seed, only=None, jobs=None):
                                     'samples': [], 'solver': {}, 'wall_s': 0})
             pool.terminate()
 
+    return finish(prop, mod, tier, seed, results, t0)
+
+
+def finish(prop, mod, tier, seed, results, t0):
+    """Concrete replays of counterexamples, translator validation 2, twins, known findings, report and evidence."""
     twin_results = [r for r in results if r['cfg'].get('__twin__')]
     results = [r for r in results if not r['cfg'].get('__twin__')]
     # ---- concrete runs: counterexample replays + translator validation 2 ----
